@@ -332,20 +332,20 @@ def random_cases(rng, tier):
 def tlc_jobs(tier):
     jobs = []
     if tier == "quick":
-        cfgs = [("OvniSort.cfg", "<=6 events, clocks 0..2, <=2 regions, jumbo inside"),
-                ("OvniSort_B.cfg", "<=5 events, clocks 0..3, 1 region, jumbo anywhere"),
-                ("OvniSort_Free.cfg", "<=4 events, clocks 0..2, stray OU] / nested OU[")]
-        rings = (2, 3, 4, 5, 8)
+        # few, larger TLC processes (JVM start-up and warm-up dominate small runs)
+        jobs.append({"name": "OvniSortMC/OvniSort_B_Quick.cfg rings 3,5,8 (<=5 events, clocks 0..3, 1 region, "
+                             "jumbo anywhere)", "cfg": "OvniSort_B_Quick.cfg", "env": {}, "neg": False, "workers": 4})
+        jobs.append({"name": "OvniSortMC/OvniSort_Free.cfg rings 2,3,4,5,8 (<=4 events, clocks 0..2, stray OU] / "
+                             "nested OU[)", "cfg": "OvniSort_Free.cfg", "env": {}, "neg": False, "workers": 2})
     else:
         cfgs = [("OvniSort_Thorough.cfg", "<=7 events, clocks 0..2, <=2 regions, jumbo inside"),
                 ("OvniSort_Thorough63.cfg", "<=6 events, clocks 0..3, <=2 regions, jumbo inside"),
                 ("OvniSort_B.cfg", "<=5 events, clocks 0..3, 1 region, jumbo anywhere"),
                 ("OvniSort_Free_Thorough.cfg", "<=5 events, clocks 0..2, stray OU] / nested OU[")]
-        rings = (2, 3, 4, 5, 6, 7, 8)
-    for cfg, label in cfgs:
-        for ring in rings:
-            jobs.append({"name": "OvniSortMC/%s ring=%d (%s)" % (cfg, ring, label), "cfg": cfg,
-                         "env": {"C16_RING": ring}, "neg": False, "workers": 3 if tier == "quick" else 4})
+        for cfg, label in cfgs:
+            for ring in (2, 3, 4, 5, 6, 7, 8):
+                jobs.append({"name": "OvniSortMC/%s ring=%d (%s)" % (cfg, ring, label), "cfg": cfg,
+                             "env": {"C16_RING": ring}, "neg": False, "workers": 4})
     if tier != "quick":
         jobs.append({"name": "OvniSortMC/OvniSort_Witness_SecondRun.cfg ring=5 (witness: a second run with the same -n "
                              "can exit 1 on the sorted stream; not a requirement)", "cfg": "OvniSort_Witness_SecondRun.cfg",
@@ -371,6 +371,7 @@ def start_tlc_helper(jobs, tier):
         return pid, path
     code = 1
     try:
+        os.setpgid(0, 0)
         def one(j):
             r = core.tlc("OvniSortMC", j["cfg"], workers=j["workers"], env=j["env"], tags=(),
                          heap="3g", timeout=1500 if tier == "quick" else 7200)
@@ -378,7 +379,7 @@ def start_tlc_helper(jobs, tier):
             return r
         # negative configurations first (short), then the big ones
         order = sorted(range(len(jobs)), key=lambda i: (not jobs[i]["neg"], i))
-        with ThreadPoolExecutor(max_workers=4) as ex:
+        with ThreadPoolExecutor(max_workers=3 if tier == "quick" else 4) as ex:
             rs = list(ex.map(lambda i: (i, one(jobs[i])), order))
         with open(path + ".tmp", "wb") as f:
             pickle.dump(dict(rs), f)
@@ -407,6 +408,54 @@ def collect_tlc_helper(pid, path):
 
 # --------------------------------------------------------------------------
 
+def kill_helper(hpid):
+    for kill in (os.killpg, os.kill):
+        try:
+            kill(hpid, 9)
+        except OSError:
+            pass
+    try:
+        os.waitpid(hpid, 0)
+    except OSError:
+        pass
+
+
+def export_streams(ck, tier):
+    """The exhaustive instance that also prints the streams to replay (all ring sizes
+    in one TLC process), plus the pinned streams."""
+    cfg = "OvniSort_Export.cfg" if tier == "quick" else "OvniSort_Export_Thorough.cfg"
+    # quick: one TLC process for all ring sizes; thorough: one per ring size
+    rings = ("2,3,4,5,8",) if tier == "quick" else (2, 3, 4, 5, 8)
+
+    def one(ring):
+        return core.tlc("OvniSortMC", cfg, tags=("TR",), heap="4g", timeout=3000,
+                        workers=8 if tier == "quick" else 3,
+                        env={} if tier == "quick" else {"C16_RING": ring})
+    with ThreadPoolExecutor(max_workers=len(rings)) as ex:
+        rxs = list(ex.map(one, rings))
+    exported = []
+    for ring, rx in zip(rings, rxs):
+        core.tlc_expect_ok(rx, "OvniSort export ring=%s" % ring)
+        ck.add_tlc(rx, "OvniSortMC/%s ring=%s (%s; selected streams exported)"
+                   % (cfg, ring, "<=6 events, clocks 0..2, <=2 regions, jumbo inside" if tier == "quick"
+                      else "<=6 events, clocks 0..2, <=2 regions, jumbo anywhere"))
+        if rx.violated:
+            ck.violation("the model of ovnisort.c (spec/OvniSort.tla, implementation layer) violates %s (ring %s)"
+                         % (rx.violated, ring), {"tlc.out": rx.out[-20000:]}, sig="model-" + str(rx.violated))
+        exported += [t for tg, t in rx.lines if isinstance(t, dict)]
+    if len(exported) < 1000 and not any(rx.violated for rx in rxs):
+        raise core.MachineryError("only %d streams exported:\n%s" % (len(exported), rxs[-1].out[-1500:]))
+    # pinned streams (beyond the export bounds), evaluated by TLC in the same way
+    rp = core.tlc("OvniSortCases", "OvniSortCases.cfg", tags=("TR",), workers=1, timeout=600)
+    core.tlc_expect_ok(rp, "OvniSortCases")
+    pinned = [t for tg, t in rp.lines if isinstance(t, dict)]
+    if rp.violated or len(pinned) < 10:
+        raise core.MachineryError("OvniSortCases: %s, %d cases\n%s" % (rp.violated, len(pinned), rp.out[-1500:]))
+    ck.add_tlc(rp, "OvniSortCases (%d pinned streams evaluated by both layers)" % len(pinned))
+    ck.phase("tlc_export")
+    return pinned + exported, pinned
+
+
 def main(pid, tier):
     scratch_root()
     try:
@@ -423,30 +472,16 @@ def _main(pid, tier):
         if not os.path.exists(core.tool(bdir, tname)):
             raise core.MachineryError("no %s in the build" % tname)
 
-    # ---- TLC: streams to replay (the exporting run also checks Refinement)
-    rx = core.tlc("OvniSortMC", "OvniSort_Export.cfg" if tier == "quick" else "OvniSort_Export_Thorough.cfg",
-                  tags=("TR",), heap="6g", timeout=3000)
-    core.tlc_expect_ok(rx, "OvniSort export")
-    ck.add_tlc(rx, "OvniSortMC/export (all rings; every stream of the export bounds, selected ones printed)")
-    if rx.violated:
-        ck.violation("the model of ovnisort.c violates %s" % rx.violated, {"tlc.out": rx.out[-20000:]},
-                     sig="model-" + str(rx.violated))
-    exported = [t for tg, t in rx.lines if isinstance(t, dict)]
-    if len(exported) < 1000:
-        raise core.MachineryError("only %d streams exported:\n%s" % (len(exported), rx.out[-1500:]))
-    # pinned streams (beyond the export bounds), evaluated by TLC in the same way
-    rp = core.tlc("OvniSortCases", "OvniSortCases.cfg", tags=("TR",), workers=1, timeout=600)
-    core.tlc_expect_ok(rp, "OvniSortCases")
-    pinned = [t for tg, t in rp.lines if isinstance(t, dict)]
-    if rp.violated or len(pinned) < 10:
-        raise core.MachineryError("OvniSortCases: %s, %d cases\n%s" % (rp.violated, len(pinned), rp.out[-1500:]))
-    ck.add_tlc(rp, "OvniSortCases (%d pinned streams evaluated by both layers)" % len(pinned))
-    exported = pinned + exported
-    ck.phase("tlc_export")
-
-    # ---- TLC: Impl => Property and the negative configurations, in the background
+    # ---- TLC: Impl => Property on the other instances and the negative configurations, in the
+    # background (a forked helper, a few TLC processes at a time)
     jobs = tlc_jobs(tier)
     hpid, hpath = start_tlc_helper(jobs, tier)
+
+    try:
+        exported, pinned = export_streams(ck, tier)
+    except BaseException:
+        kill_helper(hpid)
+        raise
 
     try:
         # ---- generated direction
@@ -510,7 +545,7 @@ def _main(pid, tier):
         execs = [[public(r)] for r in recs] + [[public(r)] for r in cross]
         # spread the long streams evenly over the TLC runs
         order = sorted(range(len(execs)), key=lambda i: -len(execs[i][0]["k"]))
-        nch = 12
+        nch = 6 if tier == "quick" else 12
         perm = [order[i] for c in range(nch) for i in range(c, len(order), nch)]
         execs_p = [execs[i] for i in perm]
         csize = (len(execs_p) + nch - 1) // nch
@@ -554,11 +589,7 @@ def _main(pid, tier):
                              sig=clauses[0] if clauses else "rejected")
         ck.cov["traces_validated_against_impl"] = agree + sum(1 for j in acc if j < nrec)
     except BaseException:
-        try:
-            os.kill(hpid, 9)
-            os.waitpid(hpid, 0)
-        except OSError:
-            pass
+        kill_helper(hpid)
         raise
 
     # ---- model-checking results
